@@ -307,7 +307,7 @@ PROPS = {
                 streams=dict(quick=[('filters', []), ('hist', ['-n', 150, '-scans', 8, '-focus', 'multi']), ('hist', ['-n', 300, '-scans', 10])],
                              thorough=[('filters', []), ('hist', ['-n', 8000, '-scans', 12, '-focus', 'multi']), ('hist', ['-n', 10000, '-scans', 12])],
                              search=[('filters', []), ('hist', ['-n', 1000, '-scans', 12, '-focus', 'multi']), ('hist', ['-n', 1500, '-scans', 12])]),
-                aspects=['affinity', 'default', 'match', 'bad-case'], monitors=['C14'],
+                aspects=['affinity', 'default', 'match', 'bad-case', 'hist:delta', 'hist:journal'], monitors=['C14'],
                 decisive={'affinity': 'Esc.P.C14_pod: the model filter is equivalent to the documented pod attribution rule',
                           'default': 'Esc.P.C14_default: the model filter is equivalent to the documented default-group rule',
                           'match': 'Esc.P.C14_node: the model filter is equivalent to the documented node rule'},
